@@ -8,8 +8,8 @@ CONSTANTS
   IVLen = 16
   Hdr = 5
   Encs = {TRUE, FALSE}
-  SendApis = {"frames", "typed"}
-  RecvApis = {"complete", "startread", "typed"}
+  SendApis = {"frames"}
+  RecvApis = {"startread", "typed"}
   WriteSizes = {1, 2, 3, 4, 5, 6}
   StrSizes = {}
   ReadSizes = {1, 2, 3, 4, 5, 6}
